@@ -2099,6 +2099,52 @@ def p_each( ctx ):
                  'the reply of that member is rendered into another object than the one in data.multiple.request: the bundle reply carries the member\'s REQUEST octets where its reply belongs ( no reply bit, no status ) - the same request sent alone is answered service | 0x80, status 0x08' )
     else:
         res.ok( src, f, 'the member loop never re-binds %s: every reply is rendered into the member the bundle reply is produced from' % var )
+    # the handler that answers a failing member alone must not fail itself: the member may be EMPTY ( two equal offsets, an offset at the end of
+    # the data: no service, no path ), so every field it READS there is one it has stored before in the handler, or reads through
+    # .get / .pop / `in`.  An attribute read of an absent field raises inside the handler: the whole bundle is answered 0x08 and the
+    # neighbours' replies ( whose writes were carried out ) are lost
+    DICT_METHODS = ( 'get', 'pop', 'setdefault', 'update', 'keys', 'items', 'values' )
+    for h_ in [ x for x in ast.walk( f ) if isinstance( x, ast.ExceptHandler ) ]:
+        loose = []
+        def reads( node, have ):
+            for n_ in ast.walk( node ):
+                if isinstance( n_, ast.Attribute ) and isinstance( n_.ctx, ast.Load ) and isinstance( n_.value, ast.Name ) and n_.value.id == var:
+                    par = src.parent.get( n_ )
+                    if n_.attr in DICT_METHODS and isinstance( par, ast.Call ) and par.func is n_:
+                        continue
+                    if n_.attr not in have:
+                        loose.append( n_ )
+        def stored( st_ ):
+            return { t_.attr for tg_ in ( st_.targets if isinstance( st_, ast.Assign ) else [] ) for t_ in [ tg_ ] if isinstance( t_, ast.Attribute ) and dotted( t_.value ) == var }
+        def walk( stmts, have ):
+            have = set( have )
+            for st_ in stmts:
+                if isinstance( st_, ast.If ):
+                    reads( st_.test, have )
+                    b_ = walk( st_.body, have ); o_ = walk( st_.orelse, have )
+                    both = b_ & o_
+                    # `if not r.get( 'x' ): r.x = ...` / `if 'x' not in r: r.x = ...`: x is there afterwards either way
+                    t_ = st_.test
+                    key = None
+                    if isinstance( t_, ast.UnaryOp ) and isinstance( t_.op, ast.Not ) and isinstance( t_.operand, ast.Call ) and dotted( t_.operand.func ) == var + '.get' and t_.operand.args:
+                        key = try_fold( t_.operand.args[0] )
+                    if isinstance( t_, ast.Compare ) and len( t_.ops ) == 1 and isinstance( t_.ops[0], ast.NotIn ) and dotted( t_.comparators[0] ) == var:
+                        key = try_fold( t_.left )
+                    if key and key in b_ and not st_.orelse:
+                        both = both | { key }
+                    have = both
+                elif isinstance( st_, ( ast.Assign, ast.AugAssign, ast.Expr, ast.Return, ast.Raise, ast.Assert )):
+                    reads( st_.value if isinstance( st_, ( ast.Assign, ast.AugAssign, ast.Expr, ast.Return )) and st_.value is not None else st_, have )
+                    have |= stored( st_ )
+                else:
+                    reads( st_, have )
+            return have
+        walk( h_.body, set())
+        if loose:
+            res.bad( src, loose[0], 'the handler answering a failing member alone reads %s.%s, which an empty or unparsed member does not have ( %s )' % ( var, loose[0].attr, norm_text( stmt_of( src, loose[0] ))[:70] ),
+                     'the read raises inside the handler: the whole Multiple Service Packet is answered 0x08 where that member alone should be - the replies of its neighbours, whose writes were carried out, are lost' )
+        else:
+            res.ok( src, h_, 'the handler answering a failing member alone reads only fields it has stored, or through .get / .pop' )
     # the loop body never touches the bundle's own status
     st = [ s for s in ast.walk( f ) if isinstance( s, ast.Assign ) and any( dotted( t ) == 'data.status' for t in s.targets ) ]
     if st:
